@@ -301,7 +301,7 @@ class SupervisedOPF(OPF):
                 ctr = non_prototypes
 
                 while ctr > 0:
-                    j = int(r.generate_uniform_random_number(0, len(X_train)))
+                    j = int(r.generate_uniform_random_number(0, len(X_train))[0])
 
                     if self.subgraph.nodes[j].status != c.PROTOTYPE:
                         X_train[j, :], X_val[err, :] = X_val[err, :], X_train[j, :]
